@@ -351,6 +351,41 @@ pub fn run(args: &Args) {
             for e in pkgobs::observe_all(&m, &o) { t.emit(e); }
         }
     }
+    // hand-encoded packages whose main header has no region and whose store ends with bytes no entry refers to
+    // (or with a string): every prefix that ends inside those last bytes, and the package signed / cleared by the library
+    if has("slack") {
+        use crate::rawhdr::*;
+        let lead = lead_bytes("slack");
+        let sig = encode_wellformed(62, &[]);
+        let mut variants: Vec<(String, Vec<u8>)> = vec![];
+        for extra in 0..9usize {
+            let mut store = b"name\0".to_vec();
+            store.extend(std::iter::repeat(b'.').take(extra));
+            variants.push((format!("slack{extra}"), encode_raw([0x8e, 0xad, 0xe8, 0x01], [0; 4], 1, store.len() as u32, &[[1000, 6, 0, 1]], &store)));
+            let mut store2 = b"name\0".to_vec();
+            store2.extend(std::iter::repeat(b'v').take(extra + 1));
+            store2.push(0);
+            variants.push((format!("string-last{extra}"), encode_raw([0x8e, 0xad, 0xe8, 0x01], [0; 4], 2, store2.len() as u32, &[[1000, 6, 0, 1], [1011, 6, 5, 1]], &store2)));
+        }
+        variants.push(("no-entries".into(), encode_raw([0x8e, 0xad, 0xe8, 0x01], [0; 4], 0, 24, &[], &[b's'; 24])));
+        for (name, hdr) in variants {
+            let bytes = assemble(&lead, &sig, &hdr, b"", 0);
+            for cut in bytes.len().saturating_sub(40)..=bytes.len() {
+                let mut o = Opts::new(&format!("slack:{name}:cut{cut}"));
+                o.gets = false;
+                for e in pkgobs::observe_all(&bytes[..cut], &o) { t.emit(e); }
+            }
+            let with_payload = assemble(&lead, &sig, &hdr, b"070701 some payload bytes", 0);
+            if let Ok(Ok(mut p)) = guarded(|| Package::parse(&mut &with_payload[..])) {
+                if guarded(|| p.sign_with_timestamp(gen_::signer("ed25519"), 1_600_000_000u32)).map(|r| r.is_ok()).unwrap_or(false) {
+                    observe_memory(&mut t, &p, &format!("slack-signed:{name}"), false, false);
+                    if guarded(|| p.clear_signatures()).map(|r| r.is_ok()).unwrap_or(false) {
+                        observe_memory(&mut t, &p, &format!("slack-cleared:{name}"), false, false);
+                    }
+                }
+            }
+        }
+    }
     if has("gen") {
         let cases = std::fs::read_to_string(args.req("cases")).expect("cases file");
         for (i, line) in cases.lines().enumerate() {
